@@ -15,7 +15,7 @@
 import random
 
 import vlib
-from checks import brokerlib
+from checks import brokerlib, inboundlib
 
 GEN = 'CONSTANTS Clients = {%s} Ids = {%s} Depth = %d\nSPECIFICATION Spec\nCONSTRAINT Dump\nCHECK_DEADLOCK FALSE\n'
 
@@ -138,7 +138,12 @@ def check(run):
         scns.append(long_run(rng, 2200, prefill={"count": 900, "consumed": 880}, throttle_at=[2000, 3000]))
         scns.append(long_run(rng, 700, prefill={"count": 1990, "consumed": 1990}, throttle_at=[2000]))
         scns.append(long_run(rng, 640))
-    run.log("%d short scripts from TLC + %d long runs" % (nshort, len(scns) - nshort))
+    # "acknowledged" must mean stored wherever a subscriber is: publishes with subscribers on two nodes while the log or the link of
+    # one of them fails and recovers (QoS 1; the acknowledgement must be withheld whichever destination failed)
+    hf = inboundlib.gen(run, "c02", [1, 2], ["c1"], ["m1", "m2", "m3"], [1], 4 if thorough else 3, qos=(1,))
+    hf = [h for h in hf if any(o["op"] == "pub" for o in h) and any(o["op"] == "toggle" for o in h) and not any(o["op"] in ("pubrel", "sweep") for o in h)]
+    scns += [inboundlib.scenario(h, [1, 2]) for h in hf]
+    run.log("%d short scripts from TLC + %d long runs + %d two-node scripts with failures" % (nshort, len(scns) - nshort - len(hf), len(hf)))
     tpath, crashes = brokerlib.execute(run, scns, "c02", shards=12, timeout=3000)
     if crashes:
         raise vlib.Inconclusive("broker driver died: %s" % crashes[0][2][-2000:])
@@ -152,7 +157,7 @@ def check(run):
         "rule": "scenarios: every TLC-generated script of %d steps over 2 clients that both publish (QoS 0/1/2, ids {1,2}, PUBREL delayed) and subscribe "
                 "(QoS 1 / QoS 2) on a fresh node; plus seeded long runs of bursts (payloads 0 B - 70 KB, QoS 0/1/2, three topics, two subscribers) "
                 "crossing segment rolls and truncation points with a gated subscriber, on empty and pre-filled logs; a subscriber that stops reading for "
-                "a whole burst of 1250 (thorough also 2150) messages that carries the log past a truncation point, then resumes; evaluations = recorded events"
+                "a whole burst of 1250 (thorough also 2150) messages that carries the log past a truncation point, then resumes; two-node QoS 1 scripts in which the log or the link of one destination fails and recovers; evaluations = recorded events"
                 % (4 if thorough else 3),
         "trace_spec_states": tstates, "rejections": len(rejected),
         "negative_control": "MC with Margin=0 violates TruncSafe as required",
